@@ -232,10 +232,17 @@ def main():
     matched_known = {}
 
     # failing real inputs per function (for replay of failed obligations)
-    rt_fail_by_function = {}
-    for c in rt_checks:
-        for f in c.get("failures", []):
-            rt_fail_by_function.setdefault(c.get("function"), []).append((c["name"], f))
+    def rt_failures_for(function):
+        """Real failing inputs found by the bounded checks that exercise `function` ('file.py::Cls.method'): a bounded
+        check names the functions it drives in free text, so match on the file and on the method name as a word."""
+        file_, _, qual = (function or "").partition("::")
+        meth = qual.split(".")[-1]
+        out = []
+        for c in rt_checks:
+            spec = c.get("function") or ""
+            if file_ and file_ in spec and re.search(r"(?<![A-Za-z0-9_])%s(?![A-Za-z0-9_])" % re.escape(meth), spec):
+                out += [(c["name"], f) for f in c.get("failures", [])]
+        return out
 
     n_known_obl = 0
     for rec in ob_records:
@@ -246,7 +253,7 @@ def main():
                 rec["known_finding"] = k["id"]
                 n_known_obl += 1
                 continue
-            fails = [(n, f) for n, f in rt_fail_by_function.get(rec["function"], [])
+            fails = [(n, f) for n, f in rt_failures_for(rec["function"])
                      if known_match("rt", n, f.get("class")) is None]
             path = os.path.join(HERE, "replays", prop, slug(rec["name"]) + ".json")
             doc = {"property": prop, "failed_obligation": rec["name"], "kind": rec["kind"], "function": rec["function"],
